@@ -31,8 +31,9 @@ fn alphabet(property: &str) -> (Idx, Vec<Op>) {
             Op::Add(4), // contests code x and tuple (10,1)
             Op::Add(1),
             Op::Add(5), // contests code y
-            Op::Add(6), // tuple (opt, opt2) = (7, none)
-            Op::Add(7), // tuple (opt, opt2) = (none, 7): a different tuple
+            Op::AddSparse(6), // tuple (opt, opt2) = (7, absent)
+            Op::AddSparse(7), // tuple (opt, opt2) = (absent, 7): a different tuple
+            Op::Add(7),       // the same tuple with an explicit null
             Op::AddInvalid,
             Op::Update(1, 1),  // name := n1
             Op::Update(2, 6),  // name := n0
@@ -191,7 +192,7 @@ fn run_history(start_idx: Idx, pre: &[Op], hist: &[Op], probe: bool) -> Res {
 
 fn op_kind(op: &Op) -> &'static str {
     match op {
-        Op::Add(_) => "add",
+        Op::Add(_) | Op::AddSparse(_) => "add",
         Op::AddInvalid => "add-invalid",
         Op::Update(..) => "update",
         Op::UpdateUnknown(_) => "update-unknown",
